@@ -223,7 +223,7 @@ def run(ctx):
     s_samp = P.stmt('V_samples = ANY.astype(ANY)') or P.stmt('V_samples = np.floor(ANY).astype(ANY)')
     ss = dim_of(P.name('V_samples')) if s_samp is not None else None
     if isinstance(ss, Arr) and isinstance(ss.elem, Q):
-        ctx.check(ss.elem.d() == {'samp': 1}, 'C15.U1', cg, s_samp, 'spike samples = times x sampling rate (samples)', 'spike samples are %s' % ss)
+        ctx.check(ss.elem.d() == {'samp': 1}, 'C15.U1', cg, s_samp, 'spike samples = times x sampling rate (samples)', 'spike samples are %s' % ss, value=getattr(ss, 'elem', ss))
     else:
         ctx.undecided('C15.U1', cg, 'the unit of the integer spike samples was not derived (%s)' % ss)
     s_bin = P.stmt('V_binsize = int(ANY)')
@@ -410,7 +410,7 @@ def run(ctx):
     for r_ in S.reports:
         ctx.violated('C15.U2', r_.fi, r_.node, '[firing_rate] %s' % r_.msg)
     if isinstance(res, Arr) and isinstance(res.elem, Q):
-        ctx.check(res.elem.d() == {'cnt': 2}, 'C15.U2', fr, 'firing_rate dimension', 'counts^2 x (s / s): a pair count per bin', 'the normaliser has dimension %s, expected count^2 (bin / duration is a pure ratio)' % res.elem)
+        ctx.check(res.elem.d() == {'cnt': 2}, 'C15.U2', fr, 'firing_rate dimension', 'counts^2 x (s / s): a pair count per bin', 'the normaliser has dimension %s, expected count^2 (bin / duration is a pure ratio)' % res.elem, value=getattr(res, 'elem', res))
     bcs = PF.stmt('V_bc = np.bincount(E_rel)') or PF.stmt('V_bc = np.bincount(E_rel, REST)')
     # the counts are POSITIONAL: entry p counts the spikes relabelled p (np.bincount of the relabelled spikes); the counts returned by np.unique are indexed by
     # the labels that occur, so an id without spikes in the middle of the list shifts every later count
